@@ -77,6 +77,15 @@ PINNED = [
     ("select 1 {% if flag %}{% endif %}   ", "all"),
 ]
 
+# Systematic family: every kind of template tag next to every kind of whitespace a layout rule removes or rewrites
+# (trailing blanks at end of line, surplus blank lines at end of file, leading indent, double blanks inside a line).
+_TAGS = ["{# note #}", "{#- note -#}", "{{ a }}", "{{- a -}}", "{% set v = 1 %}", "{% if flag %}{% endif %}",
+         "{% if flag %}x{% else %}y{% endif %}", "{% for i in items %}{% endfor %}", "{%- set w = 2 -%}"]
+_SHAPES = ["SELECT a FROM t {tag}  \nWHERE a = 1\n", "SELECT a FROM t\n{tag}\n\n\n", "{tag}  \nSELECT a FROM t\n",
+           "SELECT a,   {tag}   b FROM t\n", "SELECT a FROM t\n  {tag}   \n   \n", "SELECT a FROM t {tag}\n\n\n\n",
+           "    {tag}\nSELECT a FROM t  \n"]
+PINNED += [(shape.replace("{tag}", tag), rules) for tag in _TAGS for shape in _SHAPES for rules in ("all", "layout")]
+
 
 class C10(Check):
     id = "C10"
